@@ -9,6 +9,7 @@ from pathlib import Path
 
 import typer
 from rich.console import Console
+from rich.markup import escape
 from rich.table import Table
 
 from .client.session import GeminiClient
@@ -60,7 +61,8 @@ def _format_response(response: GeminiResponse, verbose: bool = False) -> None:
             "Status",
             f"[{status_style}]{response.status}[/] ({status_text})",
         )
-        table.add_row("Meta", response.meta)
+        # Text from the server is shown as it is, not read as console markup
+        table.add_row("Meta", escape(response.meta))
 
         if response.url:
             table.add_row("URL", response.url)
@@ -71,17 +73,21 @@ def _format_response(response: GeminiResponse, verbose: bool = False) -> None:
         console.print()  # Blank line before body
 
     if response.body:
-        console.print(response.body)
+        console.print(response.body, markup=False)
     elif not response.is_success():
         # For non-success responses, show the meta as the message
         if not verbose:
             status_str = str(response.status)
             if status_str.startswith("3"):
-                console.print(f"[bold yellow][{response.status}][/] {response.meta}")
+                console.print(
+                    f"[bold yellow][{response.status}][/] {escape(response.meta)}"
+                )
             elif status_str.startswith("4"):
-                console.print(f"[bold orange1][{response.status}][/] {response.meta}")
+                console.print(
+                    f"[bold orange1][{response.status}][/] {escape(response.meta)}"
+                )
             else:
-                console.print(f"[bold red][{response.status}][/] {response.meta}")
+                console.print(f"[bold red][{response.status}][/] {escape(response.meta)}")
 
 
 @app.command()
